@@ -248,7 +248,18 @@ func oaHexVal(s string) (int, bool) {
 // litRequote decides the class "string-requote" for one quoted string literal (with its quotes):
 // single-quoted with a raw double quote; or a \xHH, \uHHHH or \u{...} escape whose code point is
 // LF, CR, the double quote or the backslash; or \xHH >= 0x80; or a \u escape in D800-DFFF.
+// Defect classes that have been repaired in /repo: their predicates answer false, so inputs of those classes
+// are generated, checked and reported like any other input (a failure there is a new violation).
+const (
+	fixedRequote      = true
+	fixedBacktick     = true
+	fixedUnterminated = true // repaired by the "fix: an unterminated string or backtick literal is an illegal token" commit
+)
+
 func litRequote(lit string) bool {
+	if fixedRequote {
+		return false // repaired in /repo by e587178 ("fix: string escapes that cannot be re-quoted stay escaped"): checked like any other literal
+	}
 	if len(lit) < 2 || (lit[0] != '"' && lit[0] != '\'') {
 		return false
 	}
@@ -310,6 +321,9 @@ func srcStringRequote(src string) bool {
 
 // srcBacktickEscape: a backtick string containing a backslash.
 func srcBacktickEscape(src string) bool {
+	if fixedBacktick {
+		return false // repaired in /repo by a100784 ("fix: backtick strings keep escaped backticks and backslashes")
+	}
 	for _, t := range oaScan(src) {
 		if t.kind == "tpl" && strings.IndexByte(t.text, '\\') >= 0 {
 			return true
@@ -362,9 +376,36 @@ func oaHasBareCR(src string) bool {
 
 // srcUnterminatedLiteral: the text ends inside a string or backtick literal.
 func srcUnterminatedLiteral(src string) bool {
+	if fixedUnterminated {
+		return false
+	}
 	for _, t := range oaScan(src) {
 		if t.open {
 			return true
+		}
+	}
+	return false
+}
+
+// clsAsiBacktick: a backtick literal is the first token of a line and the token before it can end an
+// expression (identifier, literal, `)`, `]`, `}`). ECMAScript never inserts a semicolon there (the template
+// continues the expression as a tagged template, which the subset does not have); xjs starts a new statement.
+const clsAsiBacktick = "asi-before-backtick"
+
+func srcAsiBeforeBacktick(src string) bool {
+	toks := oaScan(src)
+	for i, t := range toks {
+		if i == 0 || t.kind != "tpl" || !t.nlBefore {
+			continue
+		}
+		p := toks[i-1]
+		switch p.kind {
+		case "word", "num", "str", "tpl":
+			return true
+		case "punct":
+			if p.text == ")" || p.text == "]" || p.text == "}" {
+				return true
+			}
 		}
 	}
 	return false
